@@ -13,6 +13,7 @@ import Model.Nilsimsa
 import Spec.Tlsh
 import Spec.Nilsimsa
 import Proofs.Lemmas.Tlsh
+import Proofs.Lemmas.TlshRef
 import Proofs.Lemmas.Nilsimsa
 namespace Proofs.C19
 open Model Model.Tlsh Proofs.Lemmas.Tlsh
@@ -99,6 +100,30 @@ theorem tlsh_none_iff (lcap : Nat → Nat) (c : Cfg) (hc : c.valid = true) (data
 theorem tlsh_invalid_cfg (lcap : Nat → Nat) (c : Cfg) (hc : c.valid = false) (data : List Nat) (force : Bool) :
     ∃ e, tlsh lcap c data force = .error e := by
   unfold tlsh; simp [hc]
+
+/-! ## TLSH: the digest is the reference algorithm's -/
+
+/-- `TLSH(cfg)(data,force)` equals the reference algorithm (TLSH paper / Trend Micro reference as rendered in
+    Spec.Tlsh: positional triplet histogram, order-statistic quartiles, header, body) on every input, for every
+    valid configuration, force flag and every `l_capturing` function: same digest bytes, and None exactly when the
+    reference has no hash -/
+theorem tlsh_refines (lcap : Nat → Nat) (c : Cfg) (hc : c.valid = true) (data : List Nat) (force : Bool) :
+    tlsh lcap c data force = .ok (Spec.Tlsh.tlsh lcap c.buckets c.window c.chklen data force) :=
+  tlsh_eq_spec lcap c hc data force
+
+/-- component: the bucket array after `update` is the histogram of all reference triplet hashes -/
+theorem tlsh_buckets_refine (c : Cfg) (hc : c.valid = true) (data : List Nat) :
+    (update c data).bucket = Spec.Tlsh.buckets c.window data.toArray :=
+  update_bucket c (valid_cases hc).2.1.1 (valid_cases hc).2.1.2 data
+
+/-- component: the checksum bytes -/
+theorem tlsh_checksum_refines (c : Cfg) (hc : c.valid = true) (data : List Nat) :
+    (update c data).checksum = Spec.Tlsh.checksum c.window c.chklen data.toArray :=
+  update_checksum c (valid_cases hc).2.1.1 (valid_cases hc).2.2 data
+
+/-- component: `sorted(buckets)[k]` is the k-th order statistic -/
+theorem tlsh_quartile_is_order_statistic (l : List Nat) (k : Nat) (hk : k < l.length) :
+    (isort l).getD k 0 = Spec.Tlsh.kth l k := isort_getD_eq_kth l k hk
 
 /-! ## Re-loading a digest -/
 
@@ -225,5 +250,22 @@ theorem nilsimsa_distance_zero_iff (a b : List Nat) (hl : a.length = b.length) (
   constructor
   · intro h; exact Except.ok.inj h
   · intro h; rw [h]
+
+/-! ## Non-vacuity: the hypothesis sets are inhabited by non-trivial instances -/
+
+example : (⟨128, 5, 1⟩ : Cfg).valid = true := by decide
+example : (⟨48, 8, 3⟩ : Cfg).valid = true := by decide
+/-- a valid digest object of configuration (48,5,1) with non-trivial fields -/
+example : ObjWF ⟨48, 5, 1⟩ ⟨1, [0xa7], 0x0e, 8, 12, [0, 56, 255, 56, 232, 64, 60, 34, 160, 34, 136, 1]⟩ :=
+  ⟨rfl, rfl, by decide, by decide, by decide, by decide, rfl, by decide⟩
+/-- a byte string of the right length for (48,5,1) -/
+example : ([0xa7, 0xe0, 0x08, 0xcf, 0, 0x38, 0xff, 0x38, 0xe8, 0x40, 0x3c, 0x22, 0xa0, 0x22, 0x88] : List Nat).length
+    = (⟨48, 5, 1⟩ : Cfg).chklen + 2 + (⟨48, 5, 1⟩ : Cfg).buckets / 4 := rfl
+/-- `resolve` succeeds on raw digest bytes -/
+example : ∃ t, resolve (.raw [0xa7, 0xe0, 0x08, 0xcf, 0, 0x38, 0xff, 0x38, 0xe8, 0x40, 0x3c, 0x22, 0xa0, 0x22, 0x88]) = .ok (some t) :=
+  ⟨_, rfl⟩
+/-- two different equally long byte strings with a non-zero Hamming distance -/
+example : Nilsimsa.distance [0x80, 0x01] [0x01, 0x01] = .ok 2 := by
+  rw [nilsimsa_distance_hamming [0x80, 0x01] [0x01, 0x01] rfl (by decide) (by decide)]; rfl
 
 end Proofs.C19
